@@ -73,6 +73,30 @@ fn run(rng: &mut Rng, _idx: u64, tier: Tier) -> CaseOut {
             _ => un(Un::EF, bin(Bin::And, near, f)),
         };
     }
+    if rng.chance(1, 6) {
+        // a two-variable sub-formula twice, with the roles of its variables swapped (both entry points have to tell
+        // the occurrences apart, whatever they share internally); operators of the fragment only
+        let p = F::Prop(rng.pick(&net.names).clone());
+        let g = |a: &str, b: &str, rng_pick: usize| -> F {
+            match rng_pick {
+                0 => hyb(Hyb::Jump, a, None, un(Un::EF, var(b))),
+                1 => hyb(Hyb::Jump, a, None, bin(Bin::And, un(Un::Not, var(b)), un(Un::EF, var(b)))),
+                2 => bin(Bin::EU, var(a), bin(Bin::And, var(b), p.clone())),
+                _ => hyb(Hyb::Jump, a, None, un(Un::AG, un(Un::Not, var(b)))),
+            }
+        };
+        let pick = rng.below(4);
+        let (l, r) = (g("s", "t", pick), g("t", "s", pick));
+        let body = match rng.below(3) {
+            0 => bin(Bin::And, l, un(Un::Not, r)),
+            1 => bin(Bin::And, l, r),
+            _ => bin(Bin::Imp, l, r),
+        };
+        let q1 = *rng.pick(&[Hyb::Exists, Hyb::Forall, Hyb::Bind]);
+        let q2 = *rng.pick(&[Hyb::Exists, Hyb::Forall]);
+        let crafted = F::Hyb(q1, "s".to_string(), None, Box::new(F::Hyb(q2, "t".to_string(), None, Box::new(body))));
+        f = if rng.coin() { crafted } else { bin(*rng.pick(&[Bin::And, Bin::Or]), crafted, f) };
+    }
     if fragment && fopts.hybrids && rng.chance(1, 4) {
         // the attractor pattern belongs to the fragment
         f = bin(Bin::And, f, hyb(Hyb::Bind, "q", None, un(Un::AG, un(Un::EF, var("q")))));
